@@ -199,3 +199,16 @@ def chain_obligations():
     `obligations = pylite_tie.chain_obligations` in harness/c06.py"""
     return tie("ChainSrc", os.path.join("verde", "chain.py"), CHAIN_FUNCS, "pylite_chain.v.tmpl",
                CHAIN_THEOREMS, CHAIN_IMPORTS)
+
+
+SURFER_FUNCS = ["_read_surfer_header", "_check_surfer_integrity"]
+SURFER_THEOREMS = ["src_read_surfer_header_eq", "src_check_surfer_integrity_eq"]
+SURFER_IMPORTS = ("From Verde Require Import Lib.Dyadic Model.Surfer Proofs.SurferProofs Proofs.PyLiteBridge "
+                  "Proofs.PyLiteSurfer.")
+SURFER_SPEC = ("SurferSrc", os.path.join("verde", "io.py"), SURFER_FUNCS, "pylite_surfer.v.tmpl", SURFER_IMPORTS)
+
+
+def surfer_obligations():
+    """verde/io.py _read_surfer_header / _check_surfer_integrity against Model/Surfer.v (property C19)"""
+    tag, mod_, funcs, tmpl, imports = SURFER_SPEC
+    return tie(tag, mod_, funcs, tmpl, SURFER_THEOREMS, imports)
